@@ -315,11 +315,11 @@ int main(int argc, char **argv) {
   std::vector<uint32_t> sets = enum_sets(sc, U.size());
   int si = atoi(shard.c_str()), sn = atoi(shard.substr(shard.find('/') + 1).c_str());
   long idx = 0;
-  for (uint32_t mask : sets) for (int pal : sc.pals) for (int st : sc.stretches) {
+  for (uint32_t mask : sets) for (int pal : sc.pals) for (int st : sc.stretches) for (int pre : sc.pres) {
     long my = idx++; units_total++;
     if (my % sn != si) continue;
     if (now_s() > deadline) { complete = false; continue; }
-    Unit u = {mask, pal, st}; Cell cell = make_cell(sc, U, u); units++;
+    Unit u = {mask, pal, st, pre}; Cell cell = make_cell(sc, U, u); units++;
     for (int k : sc.kinds) for (auto &p : param_domain(k, sc.pd, cell.S, "C14")) for (const char *src : {"fresh", "own:1"}) {
       if (now_s() > deadline) { complete = false; break; }
       size_t asz = make_alphabet(cell, k, p).size();
